@@ -96,6 +96,7 @@ type Op struct {
 	Topic    string   `json:"topic,omitempty"`
 	Token    string   `json:"token,omitempty"`
 	Retain   bool     `json:"retain,omitempty"`
+	DupIn    bool     `json:"dup_in,omitempty"` // the application's Message already has Dup=true (reused / forwarded message)
 	PresetID uint16   `json:"preset_id,omitempty"`
 	Subs     []SubReq `json:"subs,omitempty"`
 	Topics   []string `json:"topics,omitempty"`
